@@ -119,15 +119,35 @@ func c03Grid(t *testing.T, tier string, shard, shards int, c *h.Collector) {
 	}
 }
 
+// c03FaultScenarios: idle groups in which the min_nodes clamp is binding, explored with every get /
+// update of the taint loop failing.
+func c03FaultScenarios(tier string) []*h.Scenario {
+	var out []*h.Scenario
+	for u := 2; u <= 5; u++ {
+		for _, room := range []int{0, 1, 2} {
+			if u-room < 0 {
+				continue
+			}
+			p := c03Case{U: u, TExpired: 1, Min: u - room, Slow: 5, Fast: 9, Band: "fast"}
+			s := c03Build(p)
+			s.Name = fmt.Sprintf("c03.faults.U%d.room%d", u, room)
+			s.Slots = 2
+			s.FaultOps = map[string]bool{sim.OpK8sGet: true, sim.OpK8sUpdate: true}
+			out = append(out, s)
+		}
+	}
+	return out
+}
+
 func init() {
 	register(&Check{
 		ID:    "C03",
 		Level: "model_checking",
 		Rule: "grid: every state with |U| 0..3, tainted fresh/expired 0..2 each, force-tainted and cordoned 0..1 (0..3 thorough), min 0..3, five rate pairs (including rates larger than the group), four load bands, min/max configured or auto-discovered (cloud minimum raised between scans), three consecutive scans on the real controller; " +
-			"plus the taint-bound and restore monitors on the C01/C02 history scenarios; non-trivial = scans that tainted or that saw fewer untainted nodes than min; distinct = (rates, auto, class, |U|,|T|,|F|,|C|, min, observed actions)",
+			"idle groups with a binding clamp explored with every get / update of the taint loop failing; plus the taint-bound and restore monitors on the C01/C02 history scenarios; non-trivial = scans that tainted or that saw fewer untainted nodes than min; distinct = (rates, auto, class, |U|,|T|,|F|,|C|, min, observed actions)",
 		Grid:       c03Grid,
 		ReplayCase: replayGrid(c03Build, c03Monitors),
-		Scenarios:  func(tier string) []*h.Scenario { return histScenarios(tier, C01Scenarios, C02Scenarios) },
+		Scenarios:  func(tier string) []*h.Scenario { return histScenarios(tier, c03FaultScenarios, C01Scenarios, C02Scenarios) },
 		Monitors:   c03Monitors,
 		Bound: func(tier string) int {
 			if tier == "thorough" {
